@@ -294,6 +294,24 @@ func (b *builder) apply(o bop) error {
 	case "encode":
 		m.Encode()
 		b.trailing = false
+	case "encode-fields":
+		// Encode is the way to produce the bytes from the struct's fields: the caller edits Type,
+		// TransactionID and the attribute list and calls Encode. Here the list is cut to its first
+		// o.Port entries (possibly none) first.
+		keep := o.Port
+		if keep > len(m.Attributes) {
+			keep = len(m.Attributes)
+		}
+		m.Attributes = m.Attributes[:keep]
+		m.Encode()
+		b.mod.Attrs = b.mod.Attrs[:keep]
+		b.trailing = false
+		b.hasSeal = false
+		for _, a := range b.mod.Attrs {
+			if a.Type == 0x0008 || a.Type == 0x8028 {
+				b.hasSeal = true
+			}
+		}
 	case "writelength":
 		m.WriteLength()
 	case "writetype":
@@ -710,8 +728,10 @@ func genStep(rt *rapid.T) bop {
 		return bop{Kind: "newtid"}
 	case 14:
 		return bop{Kind: rapid.SampledFrom([]string{"writeheader", "writelength", "writetype", "writetid"}).Draw(rt, "w")}
-	case 15, 16:
+	case 15:
 		return bop{Kind: "encode"}
+	case 16:
+		return bop{Kind: "encode-fields", Port: rapid.IntRange(0, 3).Draw(rt, "keepAttrs")}
 	default:
 		return bop{Kind: "build", Sub: genSetterList(rt, 6, true)}
 	}
